@@ -54,7 +54,86 @@ func freshBitmaskExpr(p *Prog, f *Fn, e ast.Expr) bool {
 	switch x := ast.Unparen(e).(type) {
 	case *ast.CompositeLit:
 		return len(x.Elts) == 0
+	case *ast.Ident:
+		// a local that is defined once, from a fresh expression (possibly as the first result of a call), and
+		// moved from exactly once: `ids, ok := conds.StreamIDs(n); … x.Matches = ids`
+		v, ok := info.Uses[x].(*types.Var)
+		if !ok || v.IsField() || v.Parent() == nil || v.Pkg() == nil || v.Parent() == v.Pkg().Scope() {
+			return false
+		}
+		var def ast.Expr
+		nDef, nUse := 0, 0
+		ast.Inspect(f.Root().Body(), func(y ast.Node) bool {
+			switch st := y.(type) {
+			case *ast.AssignStmt:
+				for i, l := range st.Lhs {
+					if id, ok := l.(*ast.Ident); ok && (info.Defs[id] == types.Object(v) || info.Uses[id] == types.Object(v)) {
+						nDef++
+						if len(st.Rhs) == len(st.Lhs) {
+							def = st.Rhs[i]
+						} else if len(st.Rhs) == 1 && i == 0 {
+							def = st.Rhs[0]
+						}
+					}
+				}
+			case *ast.Ident:
+				if info.Uses[st] == types.Object(v) {
+					nUse++
+				}
+			}
+			return true
+		})
+		// nUse counts the uses outside definitions too; assignment left sides with `=` are Uses as well
+		if nDef == 1 && def != nil && nUse <= 1 {
+			return freshBitmaskExpr(p, f, def)
+		}
+		return false
 	case *ast.CallExpr:
+		// a function of the repository whose bitmask result is, on every return, an empty literal or a local that
+		// starts as one (built with Set calls in the function): query.ConditionsSet.StreamIDs
+		if fn := p.Callee(f.Pkg, x); fn != nil {
+			if h := p.FnOfObj(fn); h != nil && h.Lit == nil && h.Body() != nil && !strings.HasSuffix(fn.Pkg().Path(), "/tools/bitmask") {
+				hinfo := h.Pkg.TypesInfo
+				okAll, any := true, false
+				inspectShallow(h.Body(), func(y ast.Node) bool {
+					ret, ok := y.(*ast.ReturnStmt)
+					if !ok || len(ret.Results) == 0 {
+						return true
+					}
+					any = true
+					r0 := ast.Unparen(ret.Results[0])
+					if cl, ok := r0.(*ast.CompositeLit); ok && len(cl.Elts) == 0 {
+						return true
+					}
+					if id, ok := r0.(*ast.Ident); ok {
+						if lv, ok := hinfo.Uses[id].(*types.Var); ok && !lv.IsField() && h.Body().Pos() <= lv.Pos() && lv.Pos() < h.Body().End() {
+							// every assignment to the local is an empty literal
+							fresh := true
+							ast.Inspect(h.Body(), func(z ast.Node) bool {
+								if as, ok := z.(*ast.AssignStmt); ok && len(as.Lhs) == len(as.Rhs) {
+									for i, l := range as.Lhs {
+										if identObj(hinfo, l) == types.Object(lv) {
+											if cl, ok := ast.Unparen(as.Rhs[i]).(*ast.CompositeLit); !ok || len(cl.Elts) != 0 {
+												fresh = false
+											}
+										}
+									}
+								}
+								return true
+							})
+							if fresh {
+								return true
+							}
+						}
+					}
+					okAll = false
+					return true
+				})
+				if any && okAll {
+					return true
+				}
+			}
+		}
 		if fn := p.Callee(f.Pkg, x); fn != nil && fn.Pkg() != nil && strings.HasSuffix(fn.Pkg().Path(), "/tools/bitmask") {
 			if fn.Name() == "Copy" || strings.HasSuffix(fn.Name(), "Copy") || strings.HasPrefix(fn.Name(), "Make") {
 				return true
